@@ -10,6 +10,19 @@ CHECKS = [
            "and seeded random calls plus monthly2daily outputs are validated by TLC against the contract and Calendar.tla.",
       note="exact integer/dyadic lattice inputs; generated Cython C compiled as is; pandas date arithmetic cross-checked only via Calendar.tla",
       technique=TLA),
+ dict(property_id="C12", category="model_checking", design_ref="3.1",
+      text="Vector.tla (heap of bounded vectors, one action per write path) is model-checked for the eight invariants/action properties "
+           "of the property over all operation histories to the depth bound; one shortest history per reachable state is replayed on real "
+           "Vector objects comparing the whole observable state after every step; random long histories of the real objects are validated "
+           "step by step by VectorTrace.tla; TransformState.tla does the same for interleavings of assignments and read-only calls on all 13 transform classes.",
+      note="integer value lattice with NaN/inf tokens (out-of-bound values also 1e-6 outside); transform parameter values as order tokens",
+      technique=TLA),
+ dict(property_id="C19", category="model_checking", design_ref="3.2",
+      text="Batches.tla proves array_split |= partition contract for every (n,k) to the bound and BatchesTrace.tla validates the real families and "
+           "rejection rules against the contract; OptionGrid.tla explores build/rename/to_dict/from_dict histories, every reachable state's history "
+           "is replayed on real OptionManager objects, random dictionaries are validated by OptionGridTrace.tla.",
+      note="identifier-like strings and integers as option values; registry names distinct",
+      technique=TLA),
 ]
 
 _PENDING = "check not built yet in this round; see DESIGN.md section 3 for the planned specification"
